@@ -298,11 +298,160 @@ func genSeqs(alpha []string, n int) [][]string {
 	return out
 }
 
+// c04ConcExtra — durability under concurrency. At the end of one explored schedule of
+// concurrent writers (sync / no-sync mixes, so that write groups merge both ways), the durable
+// image is materialised at the storage-log position of every sync acknowledgement and at the
+// end (all unsynced tails lost; and all kept), recovered with Open, and every key is compared
+// with the call/return history: the recovered value must be one written to that key (or its
+// initial value), and not one that a sync-acknowledged write definitely superseded (the
+// superseded write returned before the acknowledged one was called).
+func c04ConcExtra(w *harness.World, cr *concRun) {
+	ops := w.Stor.Ops
+	posSet := map[int]bool{len(ops): true}
+	for _, d := range cr.Dur {
+		posSet[d.AckPos] = true
+	}
+	var poss []int
+	for p := range posSet {
+		poss = append(poss, p)
+	}
+	sort.Ints(poss)
+	type wr struct {
+		val       string
+		del       bool
+		call, ret int64
+	}
+	writes := map[string][]wr{}
+	for k, v := range cr.Init {
+		writes[k] = append(writes[k], wr{val: v, call: -1, ret: 0})
+	}
+	addBatch := func(b model.Batch, call, ret int64) {
+		last := map[string]wr{}
+		for _, o := range b {
+			last[o.K] = wr{val: o.V, del: o.Del, call: call, ret: ret}
+		}
+		for k, x := range last {
+			writes[k] = append(writes[k], x)
+		}
+	}
+	for _, o := range cr.Hist {
+		in := o.Input.(linInput)
+		if in.Kind == "write" {
+			addBatch(in.Batch, o.Call, o.Return)
+		}
+	}
+	var keys []string
+	for k := range writes {
+		keys = append(keys, k)
+	}
+	sort.Strings(keys)
+	seen := map[uint64]bool{}
+	rep := vstor.Replay(nil, nil)
+	applied := 0
+	for _, p := range poss {
+		for applied < p {
+			rep.Apply(&ops[applied])
+			applied++
+		}
+		for _, v := range []vstor.Variant{{}, {KeepAll: true}} {
+			img := rep.Image(v)
+			h := img.Hash()
+			if seen[h] {
+				continue
+			}
+			seen[h] = true
+			w2 := harness.NewWorld(w.Cfg)
+			w2.Stor = img
+			if err := w2.Open(); err != nil {
+				cr.Viol = append(cr.Viol, fmt.Sprintf("crash at storage op %d (%s): Open failed: %v", p, v.String(), err))
+				return
+			}
+			for _, k := range keys {
+				val, err := w2.DB.Get([]byte(k), nil)
+				absent := err == leveldb.ErrNotFound
+				if err != nil && !absent {
+					cr.Viol = append(cr.Viol, fmt.Sprintf("crash at storage op %d (%s): Get(%q) after recovery: %v", p, v.String(), k, err))
+					break
+				}
+				explained := false
+				_, hadInit := cr.Init[k]
+				cands := writes[k]
+				if !hadInit {
+					cands = append([]wr{{del: true, call: -1, ret: 0}}, cands...)
+				}
+				why := "a value never written to that key"
+				for _, c := range cands {
+					if c.del != absent || (!absent && c.val != string(val)) {
+						continue
+					}
+					superseded := false
+					for _, d := range cr.Dur {
+						if d.AckPos > p || d.Call == c.call {
+							continue
+						}
+						touches := false
+						for _, o := range d.Batch {
+							if o.K == k {
+								touches = true
+							}
+						}
+						if touches && c.ret < d.Call {
+							superseded = true
+							why = fmt.Sprintf("superseded by the write %v, acknowledged with sync before the crash", d.Batch)
+						}
+					}
+					if !superseded {
+						explained = true
+						break
+					}
+				}
+				if !explained {
+					got := "not found"
+					if !absent {
+						got = fmt.Sprintf("%q", val)
+					}
+					cr.Viol = append(cr.Viol, fmt.Sprintf("after a crash (%s) a sync-acknowledged write is lost or contents invented: Get(%q) = %s is %s", v.String(), k, got, why))
+					break
+				}
+			}
+			w2.DB.Close()
+			if len(cr.Viol) > 0 {
+				return
+			}
+		}
+	}
+	cr.Descr = append(cr.Descr, fmt.Sprintf("images=%d", len(seen)))
+}
+
+func c04ConcDrivers() []concParams {
+	return []concParams{
+		{Name: "sync-joins-nosync-group", Cfg: "default/bytewise", Clients: [][]string{{"put:a"}, {"Sput:b"}}, QB: 3, TB: 4, Expect: "noerr"},
+		{Name: "nosync-joins-sync-group", Cfg: "default/bytewise", Clients: [][]string{{"Sput:a"}, {"put:a"}}, QB: 3, TB: 4, Expect: "noerr"},
+		{Name: "3-writers-mixed", Cfg: "default/bytewise", Pre: []string{"put:a"}, Clients: [][]string{{"put:a"}, {"Sdel:a"}, {"put:b", "Sput:b"}}, QB: 2, TB: 3, Expect: "noerr"},
+		{Name: "batches-mixed", Cfg: "default/bytewise", Clients: [][]string{{"w:+a,+b"}, {"Sw:+b,+c"}, {"put:c"}}, QB: 2, TB: 3, Expect: "noerr"},
+		{Name: "mixed-no-merge", Cfg: "default/bytewise", NoMerge: true, Clients: [][]string{{"put:a"}, {"Sput:b"}, {"put:b"}}, QB: 2, TB: 3, Expect: "noerr"},
+		{Name: "mixed-with-rotation", Cfg: "flushy/bytewise", Clients: [][]string{{"Sput:a"}, {"put:b"}, {"Sput:a"}}, QB: 1, TB: 2, Expect: "noerr"},
+		{Name: "overflow-handoff-mixed", Cfg: "wide/bytewise", Clients: [][]string{{"put:a"}, {"SputL:b"}, {"Sput:a"}}, QB: 2, TB: 3, Expect: "noerr"},
+		{Name: "transaction-vs-sync-writer", Cfg: "bigbatch/bytewise", Pre: []string{"put:a"}, Clients: [][]string{{"tr:+a,+b"}, {"Sput:a"}}, QB: 1, TB: 2, Expect: "noerr"},
+	}
+}
+
 func init() {
 	register(&Check{
 		ID:    "C04",
 		Level: "fault_enumeration",
 		Worker: func(task []byte) []byte {
+			var probe struct {
+				Scenario string `json:"scenario"`
+			}
+			json.Unmarshal(task, &probe)
+			if probe.Scenario != "" {
+				return dfsWorker(map[string]func(json.RawMessage) explore.RunFunc{"conc": func(params json.RawMessage) explore.RunFunc {
+					var p concParams
+					json.Unmarshal(params, &p)
+					return func(prefix []int) *explore.Exec { return concExec(&p, prefix, c04ConcExtra) }
+				}})(task)
+			}
 			var t crashTask
 			if err := json.Unmarshal(task, &t); err != nil {
 				return explore.MustJSON(crashResult{Viol: []string{"bad task"}})
@@ -341,7 +490,8 @@ func init() {
 				}
 			}
 			runCrashTasks(c, pool, "C04", tasks)
-			c.Coverage["rule"] = "for each history (all sequences up to the depth over the alphabet, plus 6 long hand-written histories, per configuration): every position of the recorded storage-operation log x every image variant (all unsynced tails lost / kept, and per dirty file: tail cut at and inside write boundaries, optionally followed by zeros/garbage) is materialised, de-duplicated by content hash, recovered with leveldb.Open and checked; evaluations = images materialised, distinct_nontrivial = distinct images that differ from both all-lost and all-kept"
+			runConcChecks(c, "C04", c04ConcDrivers(), 2, 0)
+			c.Coverage["rule"] = "for each history (all sequences up to the depth over the alphabet, plus 6 long hand-written histories, per configuration): every position of the recorded storage-operation log x every image variant (all unsynced tails lost / kept, and per dirty file: tail cut at and inside write boundaries, optionally followed by zeros/garbage) is materialised, de-duplicated by content hash, recovered with leveldb.Open and checked; evaluations = images materialised (+ schedules explored), distinct_nontrivial = distinct images that differ from both all-lost and all-kept (+ distinct concurrent histories); plus durability under concurrency (per_driver): DFS with deviation bounding over schedules of 2-3 concurrent writers with sync/no-sync mixes (write groups merging both ways, overflow hand-off, rotation, a transaction), and per schedule the durable image at every sync acknowledgement and at the end (tails lost / kept) is recovered with Open: no value that a sync-acknowledged write definitely superseded, nothing never written"
 			c.Coverage["alphabet"] = c04Alpha
 			c.Coverage["history_depth"] = depth
 			c.Assume = []string{"metadata operations (create/remove/rename/CURRENT switch) are durable and ordered when they return; file content is durable up to its last Sync", "default (non-strict) journal/manifest options", "history itself runs on the default schedule (background work at client blocking points / Quiesce)"}
